@@ -67,8 +67,14 @@ public:
     // std::cerr << "[" << index << "," << index % active << "]\n";
     if (mindex == substrate::ThreadPool::getSocket())
       items.getLocal()->push(val);
-    else
-      pushBuffer.getRemote(mindex)->push(val);
+    else {
+      // mindex is a socket id, not a thread id.  The item lands in the calling
+      // thread's private chunk of the remote socket's buffer, which only the
+      // caller could pop: flush so that the owning socket can see it.
+      pWL& remote = *pushBuffer.getRemoteByPkg(mindex);
+      remote.push(val);
+      remote.flush();
+    }
   }
 
   template <typename ItTy>
